@@ -27,7 +27,8 @@ class C07(PoolScenario):
     assumptions = ["a and a' start from independently constructed trees filled with identical data",
                    "the JVM peer is a Python stand-in that computes partials with the library itself"]
     expected_faults = ["alias_mutation", "restore"]
-    expected_probes = ["iadd_nonempty_both", "iadd_disjoint_sparse", "iadd_reloaded_operand", "fill_b_after_iadd"]
+    expected_probes = ["iadd_nonempty_both", "iadd_disjoint_sparse", "iadd_reloaded_operand", "fill_b_after_iadd", "pure_op_on_both_replicas",
+                       "partial_child_filled_directly"]
 
     def generate(self, rng, tier, profile):
         if profile == "sparksql":
@@ -42,7 +43,7 @@ class C07(PoolScenario):
         nmax = s.randint(5, self.max_steps[tier])
         for si in range(1, nmax + 1):
             op = s.wpick([("fillpair", 5), ("fillb", 7), ("iaddpair", 4), ("newb", 1.5), ("shipb", 1.2), ("zerob", 0.4),
-                          ("npb", 2), ("nppair", 1.5)])
+                          ("npb", 2), ("nppair", 1.5), ("pureboth", 3), ("fillchild", 1.5)])
             actor = s.pick(["D", "E1", "E2"])
             if op == "fillpair" and amut:
                 steps.append({"op": "fill", "obj": 1, "mirror": 2, "rec": s.randrange(len(recs)),
@@ -66,6 +67,16 @@ class C07(PoolScenario):
                 b = s.pick(sorted(bs))
                 steps.append({"op": "iaddpair", "a": 1, "ap": 2, "b": b, "actor": "D", "t": si})
                 amut = amut and bs[b]
+            elif op == "pureboth":
+                # the same pure operation on the += replica and on the + replica must give the same result
+                steps.append({"op": "pureboth", "what": s.pick(["add_b", "b_add", "copy", "mul", "zero_add", "add_self"]), "b": s.pick(sorted(bs)),
+                              "actor": "D", "t": si})
+            elif op == "fillchild":
+                # a partial whose children are filled directly (its own entries stays behind): + and += must still agree
+                hs = [h for h, m in bs.items() if m]
+                if hs:
+                    steps.append({"op": "fillchild", "obj": s.pick(hs), "child": s.randrange(3), "rec": s.randrange(len(recs)),
+                                  "w": s.pick(specmod.POS_WEIGHTS), "actor": actor, "t": si})
             elif op == "newb":
                 nh += 1
                 bs[nh] = True
@@ -130,6 +141,56 @@ class C07(PoolScenario):
                     w.bump("probe_iadd_reloaded_operand")
                     w.bump("fault_restore")
                 self._probe_disjoint(w, a, b)
+            elif op == "pureboth":
+                if not w.has(1, 2, st["b"]):
+                    continue
+                a, ap, b = w.heap[1], w.heap[2], w.heap[st["b"]]
+                what = st["what"]
+
+                def do(x):
+                    if what == "add_b":
+                        return x + b
+                    if what == "b_add":
+                        return b + x
+                    if what == "copy":
+                        return x.copy()
+                    if what == "mul":
+                        return x * 2.0
+                    if what == "zero_add":
+                        return x.zero() + x
+                    return x + x
+
+                o1, o2 = call(do, a), call(do, ap)
+                if o1.ok != o2.ok:
+                    bad = o1 if not o1.ok else o2
+                    raise self.violation(case["specs"][0]["p"], "iadd", "replica-diverged:exception:%s" % type(bad.exc).__name__,
+                                         "%s on the += replica: %s; on the + replica: %s" % (what, o1.describe(), o2.describe()), si)
+                if o1.ok:
+                    d = observe.doc_diff(observe.observe(o1.value), observe.observe(o2.value), tol_for(w.records, si + 8))
+                    if d is not None:
+                        raise self.violation(d[1], "iadd", "replica-diverged:%s" % d[2],
+                                             "%s of the += replica differs from %s of the + replica at %s (%s.%s)" % (what, what, d[0], d[1], d[2]), si,
+                                             {"iadd": observe.observe(o1.value), "add": observe.observe(o2.value)})
+                    w.bump("probe_pure_op_on_both_replicas")
+                writes = set()
+            elif op == "fillchild":
+                if not w.has(st["obj"]) or st["rec"] >= len(w.records):
+                    continue
+                # only the members of a collection are positions of their own (a sparse container's first "child" is
+                # its value template, which must never be filled)
+                if case["specs"][0]["p"] not in ("Label", "UntypedLabel", "Index", "Branch"):
+                    continue
+                try:
+                    kids = [c for c in w.heap[st["obj"]].children if c is not None]
+                except Exception:
+                    kids = []
+                if not kids:
+                    continue
+                o = call(kids[st["child"] % len(kids)].fill, w.records[st["rec"]], st["w"])
+                if not o.ok:
+                    self.lib(o, "fill", si)
+                w.bump("probe_partial_child_filled_directly")
+                writes = {st["obj"]}
             else:
                 o, writes = self.apply(w, st, si)
                 if o is None:
